@@ -69,23 +69,50 @@ impl<T: Deref<Target = str>> Relativizer<T> {
 
     /// Relativize the given IRI against the base of this [`Relativizer`] if possible.
     pub fn relativize<'a>(&self, iri: Iri<&'a str>) -> Option<IriRef<Cow<'a, str>>> {
+        let mut candidate = self.relativize_candidate(iri)?;
+        // a first segment containing ':' would be mistaken for a scheme (RFC 3986, section 4.2)
+        let first_seg_end = candidate.find(['/', '?', '#']).unwrap_or(candidate.len());
+        if candidate[..first_seg_end].contains(':') {
+            candidate = format!("./{candidate}").into();
+        }
+        // The candidate is built by slicing `iri`; in some corner cases
+        // (dot segments or empty segments in `iri`, first segment containing ':', ...)
+        // it is not a valid IRI reference, or it does not resolve back to `iri`.
+        // In those cases, we refuse to relativize rather than return a wrong reference.
+        if !crate::is_valid_iri_ref(&candidate) {
+            return None;
+        }
+        let base = BaseIri::new(&self.base[..]).ok()?;
+        match base.resolve(&candidate[..]) {
+            Ok(resolved) if resolved.as_str() == iri.as_str() => {
+                Some(IriRef::new_unchecked(candidate))
+            }
+            _ => None,
+        }
+    }
+
+    fn relativize_candidate<'a>(&self, iri: Iri<&'a str>) -> Option<Cow<'a, str>> {
         let lcp = longest_common_prefix(&self.base, iri.as_str());
-        if lcp >= self.query_end {
+        if lcp >= self.query_end
+            && (iri.len() == self.query_end || iri[self.query_end..].starts_with('#'))
+        {
             // iri is identicical to base or differs in the fragment only.
             // regardless, we must include the fragment (if any) in the relative IRI.
-            Some(IriRef::new_unchecked(iri[self.query_end..].into()))
+            Some(iri[self.query_end..].into())
         } else if lcp > self.path_end {
             // both iri and base have a query and-or fragment (because lcp is *strictly* > to path_end)
             // and they differ in the query or presence thereof
             // (because if if they differed only in fragment, we would have matched above)
             // → we include query and-or fragment in the relative IRI
-            Some(IriRef::new_unchecked(iri[self.path_end..].into()))
+            Some(iri[self.path_end..].into())
         } else if lcp == self.path_end
             && (iri.len() == self.path_end || iri[self.path_end..].starts_with(['?', '#']))
+            && (self.query_end == self.path_end || iri[self.path_end..].starts_with('?'))
         {
             // both iri and base have exactly the same path, but differ after
+            // (and if base has a query, so has iri, otherwise the path must be repeated)
             // → same as above
-            Some(IriRef::new_unchecked(iri[self.path_end..].into()))
+            Some(iri[self.path_end..].into())
         } else if lcp >= self.pseudoroot {
             // iri and base have similar paths
             for (nb, slash) in self.slashes.iter().copied().enumerate() {
@@ -93,36 +120,32 @@ impl<T: Deref<Target = str>> Relativizer<T> {
                     return if nb == 0 {
                         if iri.len() == slash + 1 || iri[slash + 1..].starts_with(['?', '#']) {
                             // insert ./ if there is no path element after the last slash
-                            Some(IriRef::new_unchecked(
-                                format!("./{}", &iri[slash + 1..]).into(),
-                            ))
+                            Some(format!("./{}", &iri[slash + 1..]).into())
                         } else {
-                            Some(IriRef::new_unchecked(iri[slash + 1..].into()))
+                            Some(iri[slash + 1..].into())
                         }
                     } else {
                         // insert the expected amount of '../'
                         let mut parts = vec![".."; nb + 1];
                         parts[nb] = &iri[slash + 1..];
-                        Some(IriRef::new_unchecked(parts.join("/").into()))
+                        Some(parts.join("/").into())
                     };
                 }
             }
             if self.slashes.is_empty() {
-                if iri[self.pseudoroot - 1..].starts_with('/')
+                if iri.as_bytes()[self.pseudoroot - 1] == b'/'
                     && (iri.len() == self.pseudoroot
                         || iri[self.pseudoroot..].starts_with(['?', '#']))
                 {
-                    Some(IriRef::new_unchecked(
-                        format!("./{}", &iri[self.pseudoroot..]).into(),
-                    ))
+                    Some(format!("./{}", &iri[self.pseudoroot..]).into())
                 } else {
-                    Some(IriRef::new_unchecked(iri[self.pseudoroot..].into()))
+                    Some(iri[self.pseudoroot..].into())
                 }
             } else {
                 let nb = self.slashes.len();
                 let mut parts = vec![".."; nb + 1];
                 parts[nb] = &iri[self.pseudoroot..];
-                Some(IriRef::new_unchecked(parts.join("/").into()))
+                Some(parts.join("/").into())
             }
         } else {
             // iri and base are too different to relativize
@@ -132,10 +155,16 @@ impl<T: Deref<Target = str>> Relativizer<T> {
 }
 
 fn longest_common_prefix(s1: &str, s2: &str) -> usize {
-    s1.bytes()
+    let mut lcp = s1
+        .bytes()
         .zip(s2.bytes())
         .take_while(|&(b1, b2)| b1 == b2)
-        .count()
+        .count();
+    // ensure that the common prefix does not end in the middle of a multi-byte character
+    while !s1.is_char_boundary(lcp) {
+        lcp -= 1;
+    }
+    lcp
 }
 
 #[cfg(test)]
